@@ -64,15 +64,15 @@ _CURVE_TRUST = COMMON_TRUST + [
 
 PROPS['C16'] = dict(
     category='other',
-    technique='Kani harnesses on the real calculate_length with a contract-style stand-in for Pos::length (bounded in the number of path vertices)',
-    level_text='bounded stand-in: calculate_length on unadjusted paths of 0..3 vertices (4 in the thorough tier), every finite f32 coordinate and every finite requested length > 0: total distance exactly L with the two stated exceptions, lengths start at 0 / never decrease / stay finite, truncation keeps path.len() <= lengths.len()',
+    technique='Verus contract on the extracted calculate_length with the float computations abstracted to uninterpreted functions (which value ends up as the total distance, shape of path / lengths: every path length); Kani harnesses on the real calculate_length with a contract-style stand-in for Pos::length for the numeric facts (bounded in the number of path vertices)',
+    level_text='proved (Verus, paths of every length): lengths start at 0 and are never empty; path.len() <= lengths.len() on every exit (the invariant the accessors need), both indexed accesses in range; the path is only truncated, never to nothing; without a requested length one length per vertex and the total is the natural length; with a requested length L the total is EXACTLY L (for L > 0), except: L within EPSILON of the natural length or the stable quirk (last two points equal and L longer) -> natural length kept, single point -> one length. bounded stand-in: calculate_length on unadjusted paths of 0..3 vertices (4 in the thorough tier), every finite f32 coordinate and every finite requested length > 0: total distance exactly L with the two stated exceptions, lengths start at 0 / never decrease / stay finite, truncation keeps path.len() <= lengths.len()',
     level_note='assumed: Euclidean length is finite, >= 0 and 0 for identical points (its numeric value and the geometry of the natural curve are C17, not applicable); Catmull simplification bookkeeping and longer paths not decided',
-    verus=[], kani=['curve.kc'],
+    verus=[dict(unit='len', tier='quick')], kani=['curve.kc'],
     only_prefix=['c16_'],
     kani_functions=['src/section/hit_objects/slider/curve.rs :: fn calculate_length'],
     explanation='see level_text; per-obligation statements in coverage.samples[].states',
     trusted_base=_CURVE_TRUST, assumptions=['requested length finite and > 0 (L <= 0 and non-finite L are outside the statement)'],
-    not_decided=['paths longer than the bound', 'Catmull simplification leaves the total unchanged (calculate_subpath bookkeeping)', 'the cut point is interpolated on the segment it falls in (value of the re-projected end vertex: float products)'],
+    not_decided=['numeric facts (never decrease, finite) on paths longer than the bound', 'Catmull simplification leaves the total unchanged (calculate_subpath bookkeeping)', 'the cut point is interpolated on the segment it falls in (value of the re-projected end vertex: float products)'],
 )
 
 PROPS['C18'] = dict(
@@ -92,9 +92,9 @@ PROPS['C18'] = dict(
 PROPS['C19'] = dict(
     category='other',
     technique='Kani contracts on the real accessor functions: loop-free full-domain harness for the progress clamp, bounded harnesses (curve size) for index search and interpolation',
-    level_text='interpolate_vertices proved (Verus, paths and length lists of EVERY length, every index and distance: no out-of-bounds access under path.len() <= lengths.len(); index 0 -> first vertex, past the end -> last vertex, near-equal neighbouring lengths -> earlier vertex, empty path -> origin). progress_to_dist proved (Kani, every f64 progress and distance: <= 0 gives 0 x dist, >= 1 gives dist, clamp before product); interpolate_vertices / idx_of_dist / position_at(progress <= 0) bounded stand-ins on curves of <= 3-4 vertices over every f64 value and every usize index',
+    level_text='interpolate_vertices proved (Verus, paths and length lists of EVERY length, every index and distance: no out-of-bounds access under path.len() <= lengths.len() -- an invariant calculate_length is proved to establish for paths of every length (unit len); index 0 -> first vertex, past the end -> last vertex, near-equal neighbouring lengths -> earlier vertex, empty path -> origin). progress_to_dist proved (Kani, every f64 progress and distance: <= 0 gives 0 x dist, >= 1 gives dist, clamp before product); interpolate_vertices / idx_of_dist / position_at(progress <= 0) bounded stand-ins on curves of <= 3-4 vertices over every f64 value and every usize index',
     level_note='not decided (and deliberately not asserted): the 1-Lipschitz claim, position at progress 1 is the last point, and position at a vertex length is that vertex hold only up to f32 rounding of p0 + (p1 - p0) * w',
-    verus=[dict(unit='c19', tier='quick')], kani=['curve.kc'],
+    verus=[dict(unit='c19', tier='quick'), dict(unit='len', tier='quick')], kani=['curve.kc'],
     only_prefix=['c19_'],
     kani_functions=['src/section/hit_objects/slider/curve.rs :: fn progress_to_dist', 'src/section/hit_objects/slider/curve.rs :: fn dist',
                     'src/section/hit_objects/slider/curve.rs :: fn idx_of_dist', 'src/section/hit_objects/slider/curve.rs :: fn interpolate_vertices',
@@ -252,9 +252,9 @@ PROPS['C05'] = dict(
 PROPS['C01'] = dict(
     category='other',
     technique='panic-freedom / unsafe-guard contracts on the mechanisms the property names: Kani loop-free full-domain harnesses where the function is loop-free, bounded harnesses otherwise',
-    level_text='proved (Verus, every length): the lossy UTF-8 loop of Encoding::decode slices in range, calls the unsafe from_utf8_unchecked only on a prefix std validated (its safety condition is a Verus precondition) and terminates; interpolate_vertices never indexes outside its slices (given path.len() <= lengths.len()); the whole Bezier chain calculate_path -> calculate_subpath -> approximate_bezier -> extend_exact / approximate_bspline -> bezier_approximate / bezier_subdivide never slices or indexes outside the vertex list or the shared scratch buffers, for every number of control points and every earlier use of the buffers (data-structure invariant: the four scratch vectors have equal length; approximate_bspline requires capacity >= points.len(), which every caller must prove), `unreachable!()` in calculate_path is unreachable. proved (Kani, full domain): numeric limits (parse_with_limits for f64 / f32 / i32: accepted values lie within +-limit and are never NaN, no overflow panic), BOM table, code-unit pairing, the two unsafe NonZeroU32::new_unchecked guards (HitSampleInfo::new, SamplePoint::apply), SliderEventsIter::new. Bounded stand-ins: path-string conversion incl. the raw-pointer split buffer being empty on every exit, index safety of interpolate_vertices / idx_of_dist / calculate_length (path.len() <= lengths.len() invariant), line parsers on templates never panic for any numeric value',
+    level_text='proved (Verus, every length): the lossy UTF-8 loop of Encoding::decode slices in range, calls the unsafe from_utf8_unchecked only on a prefix std validated (its safety condition is a Verus precondition) and terminates; interpolate_vertices never indexes outside its slices given path.len() <= lengths.len(), which calculate_length establishes on every exit for paths of every length (unit len, also: its own `path[end_idx]` / `path[prev_idx]` in range); the whole Bezier chain calculate_path -> calculate_subpath -> approximate_bezier -> extend_exact / approximate_bspline -> bezier_approximate / bezier_subdivide never slices or indexes outside the vertex list or the shared scratch buffers, for every number of control points and every earlier use of the buffers (data-structure invariant: the four scratch vectors have equal length; approximate_bspline requires capacity >= points.len(), which every caller must prove), `unreachable!()` in calculate_path is unreachable. proved (Kani, full domain): numeric limits (parse_with_limits for f64 / f32 / i32: accepted values lie within +-limit and are never NaN, no overflow panic), BOM table, code-unit pairing, the two unsafe NonZeroU32::new_unchecked guards (HitSampleInfo::new, SamplePoint::apply), SliderEventsIter::new. Bounded stand-ins: path-string conversion incl. the raw-pointer split buffer being empty on every exit, index safety of interpolate_vertices / idx_of_dist / calculate_length (path.len() <= lengths.len() invariant), line parsers on templates never panic for any numeric value',
     level_note='the universally quantified claim over byte strings is whole-program totality and is NOT decided; nor are termination of the adaptive Bezier subdivision and of the tick loop, the 1000-point arc cap, re-encoding, the tracing feature set',
-    verus=[dict(unit='c19', tier='quick'), dict(unit='bez', tier='quick'), dict(unit='enc', tier='quick')], kani=['support.kc', 'parse_number.kc', 'encoding.kc', 'u16_iter.kc', 'hit_samples.kc', 'c15_sample.kc', 'curve.kc', 'c20.kc', 'ho_lines.kc', 'c11_sections.kc'],
+    verus=[dict(unit='c19', tier='quick'), dict(unit='len', tier='quick'), dict(unit='bez', tier='quick'), dict(unit='enc', tier='quick')], kani=['support.kc', 'parse_number.kc', 'encoding.kc', 'u16_iter.kc', 'hit_samples.kc', 'c15_sample.kc', 'curve.kc', 'c20.kc', 'ho_lines.kc', 'c11_sections.kc'],
     only_prefix=['pn_', 'enc_from_bom', 'enc_decode', 'u16_', 'hs_hit_sample_info_new', 'c15_sample_point_apply', 'c16_calculate_length_2', 'c19_interpolate', 'c19_idx', 'c20_new_clears', 'ho_path_one', 'ho_line_5', 'c11_event_video_non_ascii', 'c11_difficulty_slider_multiplier', 'c11_color_five'],
     kani_functions=['src/util/parse_number.rs :: impl ParseNumber for f64 / f32 / i32', 'src/reader/encoding.rs :: Encoding::from_bom', 'src/reader/u16_iter.rs :: iterators',
                     'src/section/hit_objects/hit_samples.rs :: HitSampleInfo::new (unsafe)', 'src/section/timing_points/control_points/sample.rs :: SamplePoint::apply (unsafe)',
